@@ -3,6 +3,7 @@
   encoded sequence page.
 -/
 import PgVerif.Model.Sequence
+import PgVerif.Proofs.KeySort
 import PgVerif.Spec.Sequence
 namespace PgVerif.Proofs
 open PgVerif PgVerif.Spec
@@ -187,18 +188,29 @@ theorem findSeqLoop_enc (env : Model.SeqEnv) (base : String) (pageOf : Model.Cla
       have hk'' : (c.kind == [83]) = false := by simp [hk]
       simp only [hk', if_true, iht, List.filter_cons, hk'', Bool.false_eq_true, if_false]
 
+/-- the order FindSequences visits the relations in does not depend on the map iteration order: it is the parsed
+map sorted by filenode -/
+theorem seqVisitOrder_eq (env : Model.SeqEnv) (tables : List Model.ClassInfo)
+    (hπ : (env.order tables).Perm tables) (hmap : KeySort.DistinctKeys (fun c : Model.ClassInfo => c.filenode) tables) :
+    Model.seqVisitOrder env tables = Model.keySort (·.filenode) tables :=
+  KeySort.keySort_perm_invariant _ _ _ hπ (hmap.perm hπ.symm)
+
 theorem findSequences_enc (env : Model.SeqEnv) (dir : String) (dbName dbData classData : Bytes) (d : Model.DbInfo)
     (pageOf : Model.ClassInfo → SeqPage)
+    (hπ : (env.order (env.parseClass classData)).Perm (env.parseClass classData))
+    (hmap : KeySort.DistinctKeys (fun c : Model.ClassInfo => c.filenode) (env.parseClass classData))
     (h1 : env.fs (dir ++ "/global/1262") = some dbData)
     (h2 : (env.parseDatabase dbData).find? (·.name == dbName) = some d) (h3 : d.oid ≠ 0)
     (h4 : env.fs (dir ++ "/base/" ++ toString d.oid ++ "/1259") = some classData)
     (h5 : ∀ c ∈ env.parseClass classData, c.kind = [83] → (pageOf c).WF ∧
       env.fs (dir ++ "/base/" ++ toString d.oid ++ "/" ++ toString c.filenode) = some (encSeqPage (pageOf c))) :
     Model.findSequences env dir dbName =
-      .ok (some (((env.parseClass classData).filter fun c => c.kind == [83]).map fun c => listed c (pageOf c))) := by
+      .ok (some (((Model.keySort (·.filenode) (env.parseClass classData)).filter fun c => c.kind == [83]).map
+        fun c => listed c (pageOf c))) := by
   unfold Model.findSequences
   simp only [h1, h2, if_neg h3, h4, pure_eq_ok]
-  rw [findSeqLoop_enc env _ pageOf _ h5]
+  rw [seqVisitOrder_eq env _ hπ hmap]
+  rw [findSeqLoop_enc env _ pageOf _ (fun c hc => h5 c ((KeySort.keySort_perm _ _).subset hc))]
   rfl
 
 end PgVerif.Proofs
